@@ -18,6 +18,17 @@ func instrReset() { mcache.VerifReset() }
 func instrDrain() { mcache.VerifEvents() }
 func envBetween(int) {}
 
+// uaf: the slice lies in a pool buffer that has already been given back with Free
+func uaf(b []byte) string {
+	if len(b) > 0 && mcache.VerifFreed(uptrOf(b)) {
+		return " UAF"
+	}
+	return ""
+}
+
+// coTenantTake: nothing to do, the instrumented pool never hands a buffer out twice
+func coTenantTake(int) {}
+
 // loc: which object a slice lies in (never an address): M<k>+off, C+off, G, -
 func loc(b []byte, caller []byte) string {
 	if len(b) == 0 {
